@@ -1,12 +1,14 @@
 """C36 — schema migrations preserve recorded data.
 The revision list and every upgrade() are REGENERATED from /repo (harness/translate_migrations.py ->
 lean/RedunModel/Generated/Migrations.lean) on every run; theorems: lean/RedunModel/Props/C36.lean."""
+import calendar
 import logging
 import os
 import re
 import shutil
 import sqlite3
 import tempfile
+import time
 
 import translate_migrations
 from core import unsx
@@ -23,6 +25,7 @@ THEOREMS = [
     "RedunModel.C36.data_ops_preserve_partial",
     "RedunModel.C36.migrate_preserve_partial",
     "RedunModel.C36.refuted_subsecond",
+    "RedunModel.C36.refuted_subsecond_rounds_up",
 ]
 TRUSTED = [
     "the translator harness/translate_migrations.py (Python ast -> list of guarded ops; raises on anything outside its grammar) and "
@@ -51,7 +54,7 @@ LEVEL_TEXT = ("chain_linear and chain_classified are decided on the REGENERATED 
               "the required range; every op that runs on sqlite is structural or one of the known data migrations). structural_preserve is full "
               "strength (any structural op keeps every cell of every row). data_ops_preserve_partial / migrate_preserve_partial: ANY op / the whole "
               "upgrade from ANY revision keeps every row and every cell, except that job.start_time/end_time are kept only up to dropping fractional "
-              "seconds (dtUtc) and job.execution_id is recomputed; refuted_subsecond is the closed counter-example to full preservation "
+              "seconds (dtUtc: sqlite rounds to milliseconds, then cuts to whole seconds) and job.execution_id is recomputed; refuted_subsecond / refuted_subsecond_rounds_up are the closed counter-examples to full preservation "
               "(DESIGN F17). Tied to the code by the translator and by differential upgrades of populated real databases from every version.")
 LEVEL_NOTE = ("PARTIAL: full preservation is false on the current code (sub-second truncation by the 3.3->3.4 sqlite migration, a known finding). "
               "alembic/sqlite behaviour is modelled, not verified; PostgreSQL branches, downgrades, concurrent writers and failures in the middle of "
@@ -93,7 +96,11 @@ def enc(v, decl):
         if "DATETIME" in decl or "TIMESTAMP" in decl:
             m = TS_RE.match(v)
             if m:
-                return "(T s%s s%s)" % (m.group(1).encode().hex(), (m.group(2) or "").encode().hex())
+                try:
+                    sec = calendar.timegm(time.strptime(m.group(1), "%Y-%m-%d %H:%M:%S"))
+                except ValueError:
+                    return "s" + v.encode().hex()
+                return "(T i%d s%s)" % (sec, (m.group(2) or "").encode().hex())
         return "s" + v.encode("utf-8", "surrogatepass").hex()
     raise TypeError(type(v))
 
@@ -145,6 +152,8 @@ def ts(rng):
     base = "20%02d-%02d-%02d %02d:%02d:%02d" % (rng.randrange(19, 25), rng.randrange(1, 13), rng.randrange(1, 29),
                                                  rng.randrange(24), rng.randrange(60), rng.randrange(60))
     k = rng.random()
+    if k < 0.08:
+        return base + ".%06d" % rng.choice([999500, 999499, 999999, 999612, 999500 + rng.randrange(500)])   # sqlite rounds to ms
     if k < 0.45:
         return base + ".%06d" % rng.randrange(1, 1000000)
     if k < 0.75:
@@ -283,10 +292,10 @@ def populate(rng, path, version, size, witness=False):
 
 # ------------------------------------------------------------------ comparison
 def ts_instant(tok):
-    m = re.match(r"\(T s([0-9a-f]*) s([0-9a-f]*)\)$", tok)
+    m = re.match(r"\(T i(-?\d+) s([0-9a-f]*)\)$", tok)
     if not m:
         return None
-    whole = bytes.fromhex(m.group(1)).decode()
+    whole = int(m.group(1))
     frac = bytes.fromhex(m.group(2)).decode()
     digits = (frac[1:] + "000000000")[:9] if frac else "000000000"
     return whole, digits
@@ -365,13 +374,14 @@ def oracle(ctx, case, before, after):
                     continue                      # same instant, different rendering of zero fractional seconds
                 if t == "job" and c == "execution_id" and x == "N":
                     continue                      # backfill of a NULL (ASSUMPTIONS)
-                if t == "job" and c in ("start_time", "end_time") and ix and iy and ix[0] == iy[0] and iy[1] == "000000000":
+                if (t == "job" and c in ("start_time", "end_time") and ix and iy and iy[1] == "000000000"
+                        and (iy[0] == ix[0] or (iy[0] == ix[0] + 1 and ix[1] >= "999500000"))):
                     found.add(F17)
                     ctx.violation(F17,
                                   "upgrading from a schema <= 3.3 drops the fractional seconds of job.start_time/end_time "
-                                  "(sqlite migration 3b0a6e67cc58: datetime(x,'utc'))",
-                                  dict(case, table=t, column=c, key=list(key), before=bytes.fromhex(x.split()[1][1:]).decode() +
-                                       bytes.fromhex(x.split()[2][1:-1]).decode()),
+                                  "(sqlite migration 3b0a6e67cc58: datetime(x,'utc'); fractions >= .9995 carry into the next second)",
+                                  dict(case, table=t, column=c, key=list(key),
+                                       before=time.strftime("%Y-%m-%d %H:%M:%S", time.gmtime(ix[0])) + "." + ix[1][:6]),
                                   expected=ix, actual=iy, kind="history")
                     continue
                 found.add("C36-value-changed-%s.%s" % (t, c))
